@@ -128,7 +128,7 @@ class Acc(object):
 
 # ---------------------------------------------------------------- shard
 def shard_main(pid, tier, seed, i, n):
-    t0 = time.time()
+    t0 = time.monotonic()
     acc = Acc()
     cov = None
     try:
@@ -147,7 +147,7 @@ def shard_main(pid, tier, seed, i, n):
         idx = -1
         truncated = False
         for idx, case in enumerate(mod.cases(tier, seed, i, n)):
-            if time.time() > deadline:
+            if time.monotonic() > deadline:
                 truncated = True
                 break
             if isinstance(case, dict) and case.get('kind') == '__mark__':
@@ -168,7 +168,7 @@ def shard_main(pid, tier, seed, i, n):
         out['lines'] = _stop_line_monitor(cov)
     except Exception:   # noqa
         out['lines'] = {}
-    out['wall'] = time.time() - t0
+    out['wall'] = time.monotonic() - t0
     sys.stdout.write('\n' + MARK + json.dumps(out) + '\n')
     sys.stdout.flush()
 
@@ -237,7 +237,7 @@ def load_known():
 
 
 def parent_main(pid, tier, seed):
-    t0 = time.time()
+    t0 = time.monotonic()
     pid = pid.upper()
     modname = 'vf.props.' + pid.lower()
     modpath = os.path.join(VERIF_DIR, 'vf', 'props', pid.lower() + '.py')
@@ -263,7 +263,7 @@ def parent_main(pid, tier, seed):
     lines_hit = {}
     for i, p in enumerate(procs):
         try:
-            so, se = p.communicate(timeout=max(5.0, timeout - (time.time() - t0)))
+            so, se = p.communicate(timeout=max(5.0, timeout - (time.monotonic() - t0)))
         except subprocess.TimeoutExpired:
             p.kill()
             so, se = p.communicate()
@@ -337,7 +337,7 @@ def parent_main(pid, tier, seed):
         for m in merged.inconclusive[:5]:
             lines.append('INCONCLUSIVE property=%s %s' % (pid, m.replace('\n', ' | ')[:1500]))
 
-    wall = time.time() - t0
+    wall = time.monotonic() - t0
     # a sub-space counts as enumerated completely only if EVERY shard reported having finished its part of it
     exhaustive = {k: bool(all(v) and len(v) == nsh) for k, v in exhaustive_done.items()}
     cov = dict(
